@@ -142,6 +142,11 @@ Definition nomedia_flags : dflags :=
      has_ufrag := false; has_pwd := false; has_fp := true; fp_two := true; send_ok := true;
      has_media := false |}.
 
+Definition with_send_ok (f : dflags) (b : bool) : dflags :=
+  {| parses := parses f; codecs_ok := codecs_ok f; all_mid := all_mid f; cands_ok := cands_ok f;
+     has_ufrag := has_ufrag f; has_pwd := has_pwd f; has_fp := has_fp f; fp_two := fp_two f;
+     send_ok := b; has_media := has_media f |}.
+
 Record txt := { t_id : N; t_fl : dflags }.
 Definition empty_txt : txt := {| t_id := 0; t_fl := empty_flags |}.
 Definition txt_eqb (a b : txt) : bool := N.eqb (t_id a) (t_id b).
@@ -325,7 +330,9 @@ Definition create_offer (n : neg) (id : N) : neg * result unit :=
   if closed n then (n, Err EInvalidState)
   else (set_last n {| t_id := id; t_fl := good_flags |} (lastAnswer n), Ok tt).
 
-Definition create_answer (n : neg) (id : N) : neg * result unit :=
+(* snd: whether this connection's senders can start under the answer produced
+   (false when the answer drops the codec of a bound track) *)
+Definition create_answer (n : neg) (id : N) (snd : bool) : neg * result unit :=
   match remote_description n with
   | None => (n, Err EInvalidState)
   | Some rd =>
@@ -335,7 +342,7 @@ Definition create_answer (n : neg) (id : N) : neg * result unit :=
       else if negb (all_mid (t_fl (d_txt rd))) then (n, Err ENoMid)   (* generateMatchedSDP *)
       else
         let fl := if has_media (t_fl (d_txt rd)) then good_flags else nomedia_flags in
-        (set_last n (lastOffer n) {| t_id := id; t_fl := fl |}, Ok tt)
+        (set_last n (lastOffer n) {| t_id := id; t_fl := with_send_ok fl snd |}, Ok tt)
   end.
 
 (* Close: isClosed.Swap(true) ... signalingState.Set(SignalingStateClosed); no event *)
@@ -345,7 +352,7 @@ Definition close_pc (n : neg) : neg :=
 
 Inductive pcop :=
 | OCreateOffer (id : N)
-| OCreateAnswer (id : N)
+| OCreateAnswer (id : N) (snd : bool)
 | OSetLocal (d : desc)
 | OSetRemote (d : desc)
 | OClose.
@@ -353,7 +360,7 @@ Inductive pcop :=
 Definition step_r (r : repair) (n : neg) (o : pcop) : neg * result unit :=
   match o with
   | OCreateOffer id => create_offer n id
-  | OCreateAnswer id => create_answer n id
+  | OCreateAnswer id snd => create_answer n id snd
   | OSetLocal d => set_local r n d
   | OSetRemote d => set_remote r n d
   | OClose => (close_pc n, Ok tt)
